@@ -136,11 +136,15 @@ def run_flash(case):
     out.nontrivial = (n % ps != 0 and nflush >= 2) or (n % ps == 0) or not fits or bool(faults)
     out.feat('fits' if fits else 'oversize', 'len-page-multiple' if n % ps == 0 else 'len-partial-page',
              'len-buffer-multiple' if n % (ps * bp) == 0 else 'len-partial-buffer', 'flushes-%d' % min(nflush, 3),
-             'target-' + case['target'], 'override' if case['override'] is not None else 'no-override')
+             'target-' + case['target'], 'override' if case['override'] is not None else 'no-override',
+             'progress-callback' if case.get('progress') else 'console')
     for a in set(faults):
         out.feat('fault-' + a)
     link = _Link(geo, plan)
     bl = Bootloader(None)
+    if case.get('progress'):
+        # a client that shows progress (cfclient, flash_full): errors are then reported through the callback as well
+        bl.progress_cb = lambda *a, **k: None
     bl._cload.link = link
     sink = io.StringIO()
     with contextlib.redirect_stdout(sink):
@@ -273,7 +277,7 @@ def flash_case(draw):
     fpg = max(start + 1, start + need + slack)
     plan = draw(st.one_of(st.just([]), st.lists(st.sampled_from(_ACTIONS + ['ok'] * 4), max_size=14)))
     return {'geo': {'page_size': ps, 'buffer_pages': bp, 'flash_pages': fpg, 'start_page': sp}, 'target': draw(st.sampled_from(['stm32', 'nrf51'])),
-            'override': override, 'length': n, 'plan': plan}
+            'override': override, 'length': n, 'plan': plan, 'progress': draw(st.booleans())}
 
 
 def fault_cases(tier):
@@ -284,7 +288,7 @@ def fault_cases(tier):
         geo = {'page_size': ps, 'buffer_pages': bp, 'flash_pages': 40, 'start_page': 3}
         for k in range(1, depth + 1):
             for plan in itertools.product(acts, repeat=k):
-                yield {'geo': geo, 'target': 'stm32', 'override': None, 'length': n, 'plan': list(plan)}
+                yield {'geo': geo, 'target': 'stm32', 'override': None, 'length': n, 'plan': list(plan), 'progress': (k + len(plan[0])) % 2 == 0}
 
 
 def subchecks(tier):
